@@ -32,6 +32,14 @@ CHECKS['C15'] = dict(
    text="Deductive exception-flow: every real handler (33 operations, all overloads) symbolically executed against schema-shaped inputs (instances generated from the real schema dicts, non-finite numbers included) with the object layer under contract; every exception leaving a handler is a webob 4xx, NotFound or PolicyNotAuthorized. Contract raise-sets are cross-checked against a static raise analysis of the bodies on every run; ensure_consumer's body is checked under interference. Always-on bounded corpus mutation (600 requests) on the real stack.",
    note="A-lib (jsonschema accepts exactly schema instances), A-nofault, A-heap; string-level query parsing helpers are contracts (bounded by the corpus mutation); PlacementHandler/FaultWrapper/formatter obligations are in C16/C14.",
    design="4/C15")
+CHECKS['C12'] = dict(
+   text="Deductive: ensure_consumer's real body (interference between its transactions) reports 'created' exactly when it inserted the row, with generation 0, placeholder project/user exactly when the body has no project_id and the consumer type exactly from 1.38; PUT /allocations leaves a consumer it created only with allocations (found F7) and removes it on every error exit (found F2); POST /allocations and /reshaper reach the clean-ups; Consumer.delete's body removes the row whatever its generation. Always-on bounded request sequences and a creation race on the real stack compare the consumers and allocations tables after every request.",
+   note="A-txn, A-lib, A-nofault, A-key; 'exists iff holds allocations' over whole histories rests on the object-layer contracts of replace_all / delete_all (delete_consumers_if_no_allocations is a contract, its SELECT A-sql) plus the bounded sequences.",
+   design="4/C12")
+CHECKS['C14'] = dict(
+   text="Deductive with the microversion symbolic: for every route x method the real decorator chain lets a request through exactly from the documented version and answers the documented 404/405 below it, the served overload is the one whose window holds the version, windows tile [first, 1.39]; the schema object selected, the keyword flags handed to the object layer, last-modified/cache-control, version-dependent response keys, 201 vs 200+body and the error `code` are proved to switch exactly at the documented version (feature table transcribed from rest_api_version_history.rst). Always-on bounded stand-in: 53 feature probes on the real stack around each introduction version (thorough: all 40 versions) plus version negotiation.",
+   note="A-lib: microversion_parse (406, header parsing) trusted; gates inside the string-level query parsers and inside the candidate serialiser loops are covered by the probes only.",
+   design="4/C14")
 NA = {
  'C17': "quantifies over injected database faults and the retry behaviour of oslo.db/enginefacade; both would have to be assumed, at which point the contract restates the property (DESIGN section 5)",
 }
